@@ -33,7 +33,7 @@ use poulpy_hal::layouts::{
     DataRef, FillUniform, Module, NoiseInfos, ReaderFrom, ScalarZnx, Scratch, VecZnx, WriterTo, ZnxInfos, ZnxView, ZnxViewMut,
 };
 use poulpy_hal::source::Source;
-use pvc_common::phase::{Dist, glwe_phase, lwe_phase};
+use pvc_common::phase::{Dist, clear_secret, glwe_phase, lwe_phase};
 use pvc_common::{Bk, CoreAll, HalAll};
 use pvc_engine::guarded;
 use pvc_engine::rng::Rng;
@@ -243,6 +243,10 @@ pub struct Obj {
     pub bytes: Vec<u8>,
     /// compressed forms: (body, mask) of every cell after write_to -> read_from (fresh receiver) -> decompress
     pub roundtrip: Option<Vec<(Vec<i64>, Vec<i64>)>>,
+    /// compressed forms: Some(description) when the round trip changed the object as a whole (re-serialising the
+    /// deserialised compressed object, or serialising the object decompressed from it, gives other bytes: metadata
+    /// such as the secrets' degrees included)
+    pub roundtrip_object: Option<String>,
     pub bits: usize,
     /// 1-norm of the decryption key (for public-key bounds)
     pub key_l1: i128,
@@ -357,6 +361,16 @@ pub(crate) fn ser<T: WriterTo>(t: &T) -> Vec<u8> {
     let mut v = vec![];
     t.write_to(&mut v).expect("write_to into a Vec cannot fail");
     v
+}
+
+pub(crate) fn rt_object(by: &[u8], again: &[u8], key: &[u8], k2: &[u8]) -> Option<String> {
+    if by != again {
+        Some("write_to(read_from(bytes)) != bytes for the compressed object".into())
+    } else if key != k2 {
+        Some("serialisation of decompress(read_from(bytes)) differs from that of decompress(original) (cells or metadata)".into())
+    } else {
+        None
+    }
 }
 
 pub(crate) fn de<T: ReaderFrom>(t: &mut T, bytes: &[u8]) -> Result<(), String> {
@@ -690,9 +704,11 @@ where
                 let d0 = operand_digest(&c2);
                 lib!("decompress(roundtrip)", m.decompress_gglwe(&mut k2, &c2));
                 operand_verify("compressed object (decompress(roundtrip))", d0, &c2);
+                let rt_obj = rt_object(&by, &ser(&c2), &ser(&key), &ser(&k2));
                 Ok(Obj {
                     cells: cells_gglwe(&key, 0, sh, &sk.clear, &pts, Some(&seeds)),
                     bytes: by,
+                    roundtrip_object: rt_obj,
                     roundtrip: Some(body_mask(&cells_gglwe(&k2, 0, sh, &sk.clear, &pts, None))),
                     bits,
                     key_l1: sk.l1,
@@ -781,9 +797,11 @@ where
                 let d0 = operand_digest(&c2);
                 lib!("decompress(roundtrip)", m.decompress_ggsw(&mut k2, &c2));
                 operand_verify("compressed object (decompress(roundtrip))", d0, &c2);
+                let rt_obj = rt_object(&by, &ser(&c2), &ser(&ct), &ser(&k2));
                 Ok(Obj {
                     cells: cells_of(&ct, Some(&seeds)),
                     bytes: by,
+                    roundtrip_object: rt_obj,
                     roundtrip: Some(body_mask(&cells_of(&k2, None))),
                     bits,
                     key_l1: sk.l1,
@@ -805,8 +823,29 @@ where
             let enc = EncryptionLayout::new(lay, noise).map_err(|e| format!("layout: {e}"))?;
             let sk_out = make_sk::<B>(m, n, rank, dist, seed_s(inp.s));
             let _guard_sk_out = SkGuard::new("glwe secret sk_out", m, &sk_out);
-            let sk_in = make_sk::<B>(m, n, sh.rank_in, dist, seed_p(inp.p));
-            let _guard_sk_in = SkGuard::new("glwe secret sk_in", m, &sk_in);
+            // odd variants: input secret of half the ring degree (the library embeds it by ring switching: coefficient i
+            // goes to position 2i), so that the key's input and output degrees differ
+            let n_in = if inp.p % 2 == 1 && n >= 2 { n / 2 } else { n };
+            let sk_in = if n_in == n {
+                make_sk::<B>(m, n, sh.rank_in, dist, seed_p(inp.p))
+            } else {
+                let mut small = poulpy_core::layouts::GLWESecret::alloc(deg(n_in), rk(sh.rank_in));
+                fill_glwe_secret(&mut small, n_in, dist, &mut Source::new(seed_p(inp.p)));
+                let clear: Vec<Vec<i64>> = clear_secret(n_in, sh.rank_in, dist, seed_p(inp.p))
+                    .iter()
+                    .map(|c| {
+                        let mut v = vec![0i64; n];
+                        for (i, &x) in c.iter().enumerate() {
+                            v[i * (n / n_in)] = x;
+                        }
+                        v
+                    })
+                    .collect();
+                let mut full = make_sk::<B>(m, n, sh.rank_in, dist, seed_p(inp.p)); // prepared part unused by the key routines
+                full.sk = small;
+                full.clear = clear;
+                full
+            };
             let pts = sk_in.clear.clone();
             let mut xe = Source::new(seed_e(inp.e));
             let mut xa = Source::new(seed_a(inp.a));
@@ -851,9 +890,11 @@ where
                 let d0 = operand_digest(&c2);
                 lib!("decompress(roundtrip)", m.decompress_glwe_switching_key(&mut k2, &c2));
                 operand_verify("compressed object (decompress(roundtrip))", d0, &c2);
+                let rt_obj = rt_object(&by, &ser(&c2), &ser(&key), &ser(&k2));
                 Ok(Obj {
                     cells: cells_gglwe(&key, 0, sh, &sk_out.clear, &pts, Some(&seeds)),
                     bytes: by,
+                    roundtrip_object: rt_obj,
                     roundtrip: Some(body_mask(&cells_gglwe(&k2, 0, sh, &sk_out.clear, &pts, None))),
                     bits,
                     key_l1: sk_out.l1,
@@ -920,9 +961,11 @@ where
                 let d0 = operand_digest(&c2);
                 lib!("decompress(roundtrip)", m.decompress_automorphism_key(&mut k2, &c2));
                 operand_verify("compressed object (decompress(roundtrip))", d0, &c2);
+                let rt_obj = rt_object(&by, &ser(&c2), &ser(&key), &ser(&k2));
                 Ok(Obj {
                     cells: cells_gglwe(&key, 0, sh, &key_clear, &pts, Some(&seeds)),
                     bytes: by,
+                    roundtrip_object: rt_obj,
                     roundtrip: Some(body_mask(&cells_gglwe(&k2, 0, sh, &key_clear, &pts, None))),
                     bits,
                     key_l1: l1,
@@ -1001,9 +1044,11 @@ where
                 let d0 = operand_digest(&c2);
                 lib!("decompress(roundtrip)", m.decompress_tensor_key(&mut k2, &c2));
                 operand_verify("compressed object (decompress(roundtrip))", d0, &c2);
+                let rt_obj = rt_object(&by, &ser(&c2), &ser(&key), &ser(&k2));
                 Ok(Obj {
                     cells: cells_gglwe(&key, 0, sh, &sk.clear, &pts, Some(&seeds)),
                     bytes: by,
+                    roundtrip_object: rt_obj,
                     roundtrip: Some(body_mask(&cells_gglwe(&k2, 0, sh, &sk.clear, &pts, None))),
                     bits,
                     key_l1: sk.l1,
